@@ -32,6 +32,10 @@ type stressRT struct {
 }
 
 func (rt *stressRT) RoundTrip(req *http.Request) (*http.Response, error) {
+	if req.Header.Get("X-Vegeta-Attack") == "second" { // the other attack of the same Attacker: not observed
+		return &http.Response{Status: "200 OK", StatusCode: 200, Proto: "HTTP/1.1", ProtoMajor: 1, ProtoMinor: 1,
+			Header: http.Header{}, Body: io.NopCloser(bytes.NewReader(nil)), Request: req}, nil
+	}
 	seq, _ := strconv.ParseUint(req.Header.Get("X-Vegeta-Seq"), 10, 64)
 	en := time.Since(rt.start)
 	if rt.jitter > 0 && seq%3 == 0 {
@@ -123,12 +127,25 @@ func TestDrv_C05(t *testing.T) {
 		if c.jitter < 0 { // the same rate in units of 100 ms, so that the stall puts the loop more than a whole unit behind
 			pacer = vegeta.ConstantPacer{Freq: c.rate / 10, Per: 100 * time.Millisecond}
 		}
+		var second sync.WaitGroup
 		for r := range atk.Attack(tgt, pacer, 0, "c05") {
 			got = append(got, r)
+			if len(got) == per/2 && ci%4 == 3 && c.jitter >= 0 {
+				// half-way through, a second attack begins on the same Attacker (its own targets, pacer and consumer); the first
+				// one's numbering and stamping go on as before
+				second.Add(1)
+				go func() {
+					defer second.Done()
+					for range atk.Attack(vegeta.NewStaticTargeter(vegeta.Target{Method: "GET", URL: "http://second.invalid/"}),
+						vegeta.ConstantPacer{Freq: 2000, Per: time.Second}, 0, "second") {
+					}
+				}()
+			}
 			if len(got) == per || (c.jitter < 0 && len(got) == 40) {
 				atk.Stop()
 			}
 		}
+		second.Wait()
 		sort.Slice(got, func(i, j int) bool { return got[i].Seq < got[j].Seq })
 		tr := trs[ci%P]
 		tr.Emit("Reset", KV{"workers": c.workers, "maxw": c.maxw, "rate": c.rate, "jitter_ns": int64(c.jitter)})
